@@ -340,6 +340,32 @@ pub fn check_program(model: &mut Model, report: &mut Report, case: &LuauCase, co
             });
         }
         report.count("text_census_checked", 1);
+        // … and on the TOKEN-CARRYING tree (what `darklua process` really transforms): parse with tokens, apply the
+        // real rule, write with the token-based generator (retain_lines), scan the text. The Lean model and the tree
+        // census work on the token-free tree, where spellings do not exist.
+        if let Ok(mut tblock) = exec::parse_with_tokens(code) {
+            let applied = std::panic::catch_unwind(std::panic::AssertUnwindSafe(|| exec::apply_rules(&mut tblock, &rules, code)));
+            if let Ok(Ok(())) = applied {
+                let mut generator = darklua_core::generator::TokenBasedLuaGenerator::new(code);
+                darklua_core::generator::LuaGenerator::write_block(&mut generator, &tblock);
+                let ttext = darklua_core::generator::LuaGenerator::into_string(generator);
+                let left = text_census(case.rule_name, &ttext);
+                if left != 0 {
+                    oracle_failed = true;
+                    report.violation(Violation {
+                        kind: "oracle".into(),
+                        check: format!("{}:token-text-census", case.rule_name),
+                        what: format!(
+                            "{} Luau-only token(s) of the construct remain in the token-based (retain_lines) text of the real output of {} applied to the token-carrying tree",
+                            left, case.rule_name
+                        ),
+                        input: json!({"rule": case.rule_json, "code": code, "output": ttext}),
+                        failing_input_found: true,
+                    });
+                }
+                report.count("token_text_census_checked", 1);
+            }
+        }
     }
 
     // ---- C06 oracle: behaviour of the real output
